@@ -315,7 +315,13 @@ impl Multiboot2BasicHeader {
 
 impl Header for Multiboot2BasicHeader {
     fn payload_len(&self) -> usize {
-        self.length as usize - size_of::<Self>()
+        // A corrupt `length` smaller than the header must not underflow: it is
+        // reported as `MemoryError::ShorterThanHeader` by the caller.
+        (self.length as usize).saturating_sub(size_of::<Self>())
+    }
+
+    fn total_size(&self) -> usize {
+        self.length as usize
     }
 
     fn set_size(&mut self, total_size: usize) {
